@@ -138,6 +138,19 @@ class Outcome:
         self.raw = None
 
 
+def root_tags(w, sql, db):
+    """Facts about an emitted statement that name a root cause (computed by the SQL scope monitor on the parsed
+    statement): references by a name that the relation exposes twice; an aggregate call evaluated outside a grouping query."""
+    try:
+        pr = w.call({"op": "sqlparse", "dialect": "sqlite", "sql": sql, "ast": True})
+        if pr.get("ok"):
+            from .mon import sqlscope
+            return sqlscope.bind(pr["ast"], {t: list(dd["cols"]) for t, dd in db.items()})
+    except Exception:
+        pass
+    return {}
+
+
 def run_case(w, prog, db, dbname, dialect, src=None, want_rq=True, user_names=None):
     """One execution: compile prog for dialect, run on db, compare with model."""
     o = Outcome()
@@ -184,7 +197,11 @@ def run_case(w, prog, db, dbname, dialect, src=None, want_rq=True, user_names=No
             return o
         o.status = "judged"
         pat = r"[\w.]*_expr_\d+|table_\d+\.\w+|\b[a-z]\d+\.\w+" + (r"|\b\w+$" if cls == "scope" else "")     # the trailing word is a name only in scope errors
-        o.symptoms.append(("C07", "sql_error:" + cls + ":" + re.sub(pat, "X", ex["sqlite_error"].split(" in ")[0])[:60],
+        tag = ""
+        if root_tags(w, o.sql, db).get("misplaced_aggregate"):
+            tag = "+misplaced_aggregate"
+            o.obs["misplaced_aggregate"] = True
+        o.symptoms.append(("C07", "sql_error:" + cls + ":" + re.sub(pat, "X", ex["sqlite_error"].split(" in ")[0])[:60] + tag,
                            ex["sqlite_error"][:300]))
         return o
     o.cols, o.rows = ex["cols"], [tuple(x) for x in ex["rows"]]
@@ -324,16 +341,16 @@ def run_case(w, prog, db, dbname, dialect, src=None, want_rq=True, user_names=No
             # from exposes twice (SELECT a.*, b.* in a sub-query, a carried sort key next to a same-named
             # column)?  Engines then take the first such column (or reject the statement): one defect family,
             # whatever the shape of the pipeline that produced it
-            try:
-                pr = w.call({"op": "sqlparse", "dialect": "sqlite", "sql": o.sql, "ast": True})
-                if pr.get("ok"):
-                    from .mon import sqlscope
-                    amb = sqlscope.bind(pr["ast"], {t: list(dd["cols"]) for t, dd in db.items()}).get("ambiguous") or []
-                    if amb:
-                        sym += "+ambiguous_ref"
-                        o.obs["ambiguous_ref"] = amb[0]
-            except Exception:
-                pass
+            tags = root_tags(w, o.sql, db)
+            if tags.get("ambiguous"):
+                sym += "+ambiguous_ref"
+                o.obs["ambiguous_ref"] = tags["ambiguous"][0]
+            elif tags.get("misplaced_aggregate") and prop == "C01":
+                # an aggregate function evaluated in another query than the one that groups its rows (a SELECT
+                # without GROUP BY that mixes SUM(..) with plain columns): one defect family (KF-C01-1 / KF-C01-4),
+                # whatever pipeline shape led to it
+                sym += "+misplaced_aggregate"
+                o.obs["misplaced_aggregate"] = True
             if "win_sum_all_null" in model_flags and "+" not in sym and prop == "C01":
                 # the model evaluated a windowed sum over a frame without any non-NULL value (0 by the
                 # documentation, NULL from SQL's SUM): whatever differs downstream has that root (KF-C04-2)
